@@ -78,6 +78,8 @@ pub enum Delivery {
     Dribble,
     /// connection dropped after half of the body
     DisconnectMidBody,
+    /// `Transfer-Encoding: chunked` instead of `Content-Length`
+    Chunked,
 }
 
 fn http(port: u16, method: &str, path: &str, content_type: Option<&str>, body: &[u8], delivery: Delivery, timeout_s: u64) -> Outcome {
@@ -92,7 +94,11 @@ fn http(port: u16, method: &str, path: &str, content_type: Option<&str>, body: &
         head.push_str(&format!("Content-Type: {}\r\n", ct));
     }
     if method == "POST" {
-        head.push_str(&format!("Content-Length: {}\r\n", body.len()));
+        if delivery == Delivery::Chunked {
+            head.push_str("Transfer-Encoding: chunked\r\n");
+        } else {
+            head.push_str(&format!("Content-Length: {}\r\n", body.len()));
+        }
     }
     head.push_str("\r\n");
     if let Err(e) = stream.write_all(head.as_bytes()) {
@@ -112,6 +118,20 @@ fn http(port: u16, method: &str, path: &str, content_type: Option<&str>, body: &
                 }
                 let _ = stream.flush();
                 std::thread::sleep(Duration::from_millis(2));
+            }
+        }
+        Delivery::Chunked => {
+            let piece = (body.len() / 7).max(1);
+            for chunk in body.chunks(piece) {
+                let mut framed = format!("{:x}\r\n", chunk.len()).into_bytes();
+                framed.extend_from_slice(chunk);
+                framed.extend_from_slice(b"\r\n");
+                if let Err(e) = stream.write_all(&framed) {
+                    return Outcome::Closed(format!("write body: {}", e));
+                }
+            }
+            if let Err(e) = stream.write_all(b"0\r\n\r\n") {
+                return Outcome::Closed(format!("write body: {}", e));
             }
         }
         Delivery::DisconnectMidBody => {
@@ -188,6 +208,9 @@ pub enum Kind {
     Health,
     SolveValid(usize), // index into the scenario's valid instances
     SolveValidDribbled(usize),
+    /// the same valid request in another legitimate shape (media type spelling / parameters,
+    /// chunked body, pretty-printed body)
+    SolveValidShaped(usize, u8),
     NotJson,
     TruncatedJson(usize),
     WrongContentType(usize),
@@ -214,6 +237,7 @@ impl Kind {
             Kind::Health => "health",
             Kind::SolveValid(_) => "solve_valid",
             Kind::SolveValidDribbled(_) => "solve_valid_dribbled",
+            Kind::SolveValidShaped(_, _) => "solve_valid_shaped",
             Kind::NotJson => "fault.not_json",
             Kind::TruncatedJson(_) => "fault.truncated_json",
             Kind::WrongContentType(_) => "fault.wrong_content_type",
@@ -338,6 +362,20 @@ fn perform(port: u16, kind: &Kind, valid: &[ValidInstance]) -> Outcome {
         Kind::Health => http(port, "GET", "/health", None, &[], Delivery::Plain, 60),
         Kind::SolveValid(i) => http(port, "POST", "/solve", js, &valid[*i].body, Delivery::Plain, 300),
         Kind::SolveValidDribbled(i) => http(port, "POST", "/solve", js, &valid[*i].body, Delivery::Dribble, 300),
+        Kind::SolveValidShaped(i, shape) => match shape % 7 {
+            0 => http(port, "POST", "/solve", Some("application/json; charset=utf-8"), &valid[*i].body, Delivery::Plain, 300),
+            1 => http(port, "POST", "/solve", Some("application/json;charset=UTF-8"), &valid[*i].body, Delivery::Plain, 300),
+            2 => http(port, "POST", "/solve", Some("Application/JSON"), &valid[*i].body, Delivery::Plain, 300),
+            3 => http(port, "POST", "/solve", Some("application/vnd.api+json"), &valid[*i].body, Delivery::Plain, 300),
+            4 => http(port, "POST", "/solve", js, &valid[*i].body, Delivery::Chunked, 300),
+            5 => {
+                let mut pretty = b"\n  ".to_vec();
+                pretty.extend_from_slice(&serde_json::to_vec_pretty(&valid[*i].input).unwrap());
+                pretty.extend_from_slice(b"\n\n");
+                http(port, "POST", "/solve", js, &pretty, Delivery::Plain, 300)
+            }
+            _ => http(port, "POST", "/solve", Some("APPLICATION/JSON; charset=utf-8"), &valid[*i].body, Delivery::Chunked, 300),
+        },
         Kind::NotJson => http(port, "POST", "/solve", js, b"this is not json at all", Delivery::Plain, 60),
         Kind::TruncatedJson(i) => {
             let b = &valid[*i].body;
@@ -385,7 +423,7 @@ fn judge_event(e: &Event, valid: &[ValidInstance], out: &mut CaseOut, phase: &st
         (Kind::Health, Outcome::Closed(why)) => {
             out.viol("C18", "health.no_answer", format!("GET /health got no answer: {} ({})", why, phase));
         }
-        (Kind::SolveValid(i), o) | (Kind::SolveValidDribbled(i), o) => {
+        (Kind::SolveValid(i), o) | (Kind::SolveValidDribbled(i), o) | (Kind::SolveValidShaped(i, _), o) => {
             let vi = &valid[*i];
             match o {
                 Outcome::Closed(why) => out.viol(
@@ -648,7 +686,8 @@ pub fn case(ctx: &Ctx, idx: u64) -> CaseOut {
         for _ in 0..rng.usize(1, 4) {
             let v = rng.usize(0, valid.len() - 1);
             let kind = match rng.below(100) {
-                0..=34 => Kind::SolveValid(v),
+                0..=27 => Kind::SolveValid(v),
+                28..=34 => Kind::SolveValidShaped(v, rng.below(7) as u8),
                 35..=39 => Kind::SolveValidDribbled(v),
                 40..=51 => Kind::Health,
                 52..=55 => Kind::NotJson,
@@ -753,7 +792,7 @@ pub fn case(ctx: &Ctx, idx: u64) -> CaseOut {
         if soak {
             // every valid instance once more on the worn process
             for i in 1..valid.len() {
-                kinds.push(Kind::SolveValid(i));
+                kinds.push(if i % 2 == 0 { Kind::SolveValid(i) } else { Kind::SolveValidShaped(i, i as u8) });
             }
         }
         for (seq, kind) in kinds.into_iter().enumerate() {
@@ -799,7 +838,7 @@ pub fn case(ctx: &Ctx, idx: u64) -> CaseOut {
         judge_event(e, &valid, &mut out, "after_faults");
     }
     // overlap statistics from the history
-    let solves: Vec<&Event> = hist.iter().filter(|e| matches!(e.kind, Kind::SolveValid(_) | Kind::SolveValidDribbled(_))).collect();
+    let solves: Vec<&Event> = hist.iter().filter(|e| matches!(e.kind, Kind::SolveValid(_) | Kind::SolveValidDribbled(_) | Kind::SolveValidShaped(_, _))).collect();
     let panicking: Vec<&Event> = hist.iter().filter(|e| e.kind.panics_in_handler()).collect();
     let overlaps = |a: &Event, b: &Event| a.call_ns < b.ret_ns && b.call_ns < a.ret_ns;
     let mut solve_pairs = 0u64;
@@ -850,7 +889,7 @@ pub fn case(ctx: &Ctx, idx: u64) -> CaseOut {
             json!({
                 "client": if e.client == usize::MAX { json!("probe") } else { json!(e.client) },
                 "seq": e.seq, "kind": e.kind.name(),
-                "tag": match &e.kind { Kind::SolveValid(i) | Kind::SolveValidDribbled(i) => json!(valid[*i].tag), _ => Value::Null },
+                "tag": match &e.kind { Kind::SolveValid(i) | Kind::SolveValidDribbled(i) | Kind::SolveValidShaped(i, _) => json!(valid[*i].tag), _ => Value::Null },
                 "call_ns": e.call_ns.to_string(), "ret_ns": e.ret_ns.to_string(),
                 "outcome": match &e.outcome { Outcome::Response { status, body } => json!({"status": status, "body_bytes": body.len()}), Outcome::Closed(w) => json!({"open": w}) },
             })
